@@ -17,6 +17,8 @@ CONSTANTS
   BitmapHonoursShallow = TRUE
   CgOctopusOk = TRUE
   MaxParents = 6
+  GraftsBeforeGraph = TRUE
+  IdxLargeFrom31 = TRUE
   CgHonoursShallow = TRUE
   Focus = "all"
 CHECK_DEADLOCK FALSE
